@@ -8,6 +8,10 @@
   order/duplication of replies, connection loss anywhere, reconnects – and is proved by induction over the
   history through the invariant `AsyncClient.Inv` (Lemmas/AsyncClient.lean).
 
+  Histories may contain the application's `close()` anywhere (it only clears the flag; the transport's
+  `connectionLost` is a separate, later operation): see `after_close_every_execute_fails`,
+  `lost_after_close_fails_all_pending`, `close_then_lost`.
+
   Full-strength results: at-most-once, tid matching, FIFO order, unsolicited/duplicate replies dropped, all
   pending deferreds failed on loss (in table order, re-entrant requests included), every request issued while
   the connection is down fails, no exception.  For the serial (FIFO) variant the whole property holds.
@@ -220,19 +224,82 @@ theorem after_loss_every_execute_fails (v : Variant) (s : State) (r : Req) (h : 
   obtain ⟨h1, h2, h3, h4, h5⟩ := execute_down_spec (v := v) r s h
   exact ⟨h2, h1, h4, h5, h3⟩
 
-/-- on histories: after a connection loss, as long as no new connection is made, nothing is ever registered
-    again and every request issued (directly or from an errback) fails -/
+/-- on histories: after a connection loss, as long as no new connection is made (further `close()` calls and
+    losses allowed), nothing is ever registered again and every request issued (directly or from an errback)
+    fails -/
 theorem after_loss_history (v : Variant) (ops later : List Op) (hl : ∀ op ∈ later, op ≠ .connectionMade) :
     let s1 := (run v init (ops ++ [.connectionLost])).1
     let r := run v s1 later
     r.1.pending = [] ∧ r.1.connected = false ∧
     (∀ i, s1.nextId ≤ i → i < r.1.nextId → Event.errback i .notConnected ∈ r.2) := by
   intro s1 r
+  have hinv := inv_reach v (ops ++ [.connectionLost])
   have hs1 : s1 = (step v (run v init ops).1 .connectionLost).1 := by
     simp only [s1, run_append, run]
   obtain ⟨_, h2, h3, _⟩ := connectionLost_spec (inv_reach v ops)
-  obtain ⟨a1, a2, _, _, a5⟩ := down_run (v := v) later s1 (by rw [hs1]; exact h2) (by rw [hs1]; exact h3) hl
-  exact ⟨a2, a1, a5⟩
+  obtain ⟨a1, a2, _, _, a5⟩ := down_run (v := v) later s1 _ hinv (by rw [hs1]; exact h2) hl
+  refine ⟨?_, a1, a5⟩
+  cases hp : r.1.pending with
+  | nil => rfl
+  | cons p rest =>
+    have := a2 p (by rw [show (run v s1 later).1.pending = r.1.pending from rfl, hp]; simp)
+    rw [hs1, show (step v (run v init ops).1 .connectionLost).1.pending = [] from h3] at this
+    simp at this
+
+/-! ### a local `close()` -/
+
+/-- `close()` clears the flag (and calls `transport.close()` when the transport has one) and touches nothing
+    else: every pending deferred stays registered, nothing fires -/
+theorem close_only_clears_flag (v : Variant) (s : State) (hc : Bool) :
+    (step v s (.close hc)).1 = { s with connected := false } ∧
+    fired (step v s (.close hc)).2 = [] ∧ sents (step v s (.close hc)).2 = [] := by
+  cases hc <;> exact ⟨rfl, rfl, rfl⟩
+
+/-- **after_close_every_execute_fails.**  After `close()` (before or after the transport reports the loss):
+    as long as no new connection is made, the flag stays down, nothing new is registered (the table can only
+    shrink: replies that still arrive are delivered), and every request issued – directly, from a callback of
+    such a late reply, or from an errback – fails with "not connected". -/
+theorem after_close_every_execute_fails (v : Variant) (ops later : List Op) (hc : Bool)
+    (hl : ∀ op ∈ later, op ≠ .connectionMade) :
+    let s1 := (run v init (ops ++ [.close hc])).1
+    let r := run v s1 later
+    r.1.connected = false ∧ (∀ p ∈ r.1.pending, p ∈ (run v init ops).1.pending) ∧
+    (∀ i, s1.nextId ≤ i → i < r.1.nextId → Event.errback i .notConnected ∈ r.2) ∧
+    (∀ p ∈ sents r.2, Event.errback p.1 .notConnected ∈ r.2) := by
+  intro s1 r
+  have hinv := inv_reach v (ops ++ [.close hc])
+  have hs1 : s1 = { (run v init ops).1 with connected := false } := by
+    simp only [s1, run_append, run, step, close]
+  obtain ⟨a1, a2, a3, _, a5⟩ := down_run (v := v) later s1 _ hinv (by rw [hs1]) hl
+  exact ⟨a1, fun p hp => by have := a2 p hp; rw [hs1] at this; exact this, a5, a3⟩
+
+/-- **lost_fails_all_pending after a `close()`.**  Whatever happens between the `close()` and the transport's
+    `connectionLost` (late replies, further requests, further `close()` calls): every deferred still in the
+    table at that point gets the connection-lost errback, the table is empty afterwards, no exception.  Together
+    with `after_close_every_execute_fails` (the table only shrinks by deliveries): every request that was
+    pending at `close()` is either answered by a late reply or failed by the loss. -/
+theorem lost_after_close_fails_all_pending (v : Variant) (ops mid : List Op) (hc : Bool) :
+    let s := (run v init (ops ++ [.close hc] ++ mid)).1
+    let r := step v s .connectionLost
+    (∀ p ∈ s.pending, Event.errback p.2.id .lost ∈ r.2) ∧ r.1.pending = [] ∧ r.1.connected = false ∧
+    (∀ e ∈ r.2, e.isExc = false) := by
+  intro s r
+  obtain ⟨h1, h2, h3, _, _, h6⟩ := lost_fails_all_pending v (ops ++ [.close hc] ++ mid)
+  exact ⟨h1, h2, h3, h6⟩
+
+/-- in particular `close()` directly followed by the loss fails exactly the deferreds pending at `close()` -/
+theorem close_then_lost (v : Variant) (ops : List Op) (hc : Bool) :
+    let s := (run v init ops).1
+    let r := run v s [.close hc, .connectionLost]
+    (∀ p ∈ s.pending, Event.errback p.2.id .lost ∈ r.2) ∧ r.1.pending = [] ∧ r.1.connected = false := by
+  intro s r
+  obtain ⟨h1, h2, h3, _⟩ := lost_after_close_fails_all_pending v ops [] hc
+  simp only [List.append_nil, run_append, run, List.append_nil] at h1 h2 h3
+  refine ⟨?_, by simpa [r, run] using h2, by simpa [r, run] using h3⟩
+  intro p hp
+  have := h1 p (by simpa [step, close] using hp)
+  simp only [r, run, List.append_nil, List.mem_append]
+  exact Or.inr this
 
 /-- the same on the observed history: every request written while the connection is down (before the first
     `connectionMade`, inside `connectionLost`, after it) fails with the connection error within the same
@@ -448,6 +515,12 @@ theorem C16_dict_counterexample : ¬ C16_dict_full :=
 example : Spec.NoWrapAll (hist .dict [.connectionMade, .execute (.onErr .plain), .execute .plain, .reply 2 7,
     .connectionLost, .execute .plain]) := by decide
 example : (init).connected = false := rfl
+example : ∀ op ∈ [Op.execute .plain, Op.reply 1 4, Op.close true, Op.connectionLost], op ≠ Op.connectionMade := by
+  decide
+example : (run .dict init [.connectionMade, .execute .plain, .execute .plain, .close true, .reply 2 9]).1.pending =
+    [(1, ⟨0, .plain⟩)] := by decide
+example : trace .dict [.connectionMade, .execute .plain, .close true, .execute .plain, .connectionLost] =
+    [.sent 0 1, .tclose, .sent 1 2, .errback 1 .notConnected, .errback 0 .lost] := by decide
 example : ∀ op ∈ [Op.execute .plain, Op.reply 3 4, Op.connectionLost], op ≠ Op.connectionMade := by decide
 example : 5 ∉ keys (run .dict init [.connectionMade, .execute .plain]).1 := by decide
 example : ((run .dict init [.connectionMade, .execute .plain]).1.tid + 1) % 65536 ≠ 1 := by decide
